@@ -139,18 +139,24 @@ static int fiber_can_resume_safe(JanetFiber *f) {
     return janet_fiber_can_resume(f);
 }
 
-/* Compare the real run queue with the shadow; emit pop / sched events. where: phase tag */
+static JanetFiber *expect_pop = NULL;
+static int last_pop_seen = 0;
+/* Compare the real run queue with the shadow; emit pop / sched events. */
 static void observe_queue(void) {
     if (!opt_events || !IS_MAIN()) return;
     JanetQueue *q = &janet_vm.spawn;
     int32_t cnt = janet_q_count(q);
     JanetTask *tasks = q->data;
     /* pops: shadow entries not in the real queue (queue order) */
+    last_pop_seen = 0;
     for (size_t i = 0; i < nshq; i++) {
         int found = 0;
         for (int32_t k = 0, j = q->head; k < cnt; k++, j = (j + 1 < q->capacity ? j + 1 : 0))
             if (tasks[j].fiber == shq[i].f && tasks[j].expected_sched_id == shq[i].id) { found = 1; break; }
-        if (!found) out("E pop f%ld\n", fid_of(shq[i].f));
+        if (!found) {
+            out("E pop f%ld\n", fid_of(shq[i].f));
+            if (shq[i].f == expect_pop) last_pop_seen = 1;
+        }
     }
     /* pushes */
     for (int32_t k = 0, j = q->head; k < cnt; k++, j = (j + 1 < q->capacity ? j + 1 : 0)) {
@@ -218,23 +224,36 @@ static size_t count_stale_timers(void) {
 typedef struct { void *(*start)(void *); void *arg; } ThreadTramp;
 
 static int c20_pthread_create(const char *fn, pthread_t *t, const pthread_attr_t *a, void *(*start)(void *), void *arg) {
+    /* classify before the thread may free `arg`: await = default callback with a fiber to resume (janet_ev_threaded_await),
+     * nofiber = default callback, msg.fiber == NULL (ev/thread :n), proc = any other callback (os.c: janet_proc_wait_cb) */
+    const char *tcall_kind = "-";
+    if (start == janet_thread_body) {
+        JanetEVThreadInit *init = arg;
+        if (init->cb == janet_ev_default_threaded_callback) tcall_kind = init->msg.fiber ? "await" : "nofiber";
+        else tcall_kind = "proc";
+    }
     int rc = pthread_create(t, a, start, arg);
     if (rc == 0 && IS_MAIN() && start == janet_thread_body) {
         pthread_mutex_lock(&c20_mu);
         n_tstarted++;
-        if (opt_events) out("E tcall\n");
+        if (opt_events) out("E tcall %s\n", tcall_kind);
         pthread_mutex_unlock(&c20_mu);
     }
     (void) fn;
     return rc;
 }
 
-static const char *cb_kind(JanetThreadedCallback cb) {
+/* callbacks seen in completion events written by helper threads (janet_thread_body) */
+static JanetThreadedCallback call_cbs[16];
+static int n_call_cbs = 0;
+
+static const char *cb_kind(JanetSelfPipeEvent *e) {
+    JanetThreadedCallback cb = e->cb;
     if (cb == NULL) return "null";
     if (cb == janet_thread_chan_cb) return "chan";
-    if (cb == janet_ev_default_threaded_callback) return "call";
-    if (cb == janet_timeout_cb) return "timeout";
-    return "other"; /* os.c: janet_proc_wait_cb (threaded call) or janet_signal_callback (posted) */
+    if (cb == janet_ev_default_threaded_callback) return e->msg.fiber ? "await" : "nofiber";
+    for (int i = 0; i < n_call_cbs; i++) if (call_cbs[i] == cb) return "proc";
+    return "posted"; /* janet_timeout_cb, os.c: janet_signal_callback, user callbacks */
 }
 
 static ssize_t c20_read(const char *fn, int fd, void *buf, size_t n) {
@@ -243,7 +262,7 @@ static ssize_t c20_read(const char *fn, int fd, void *buf, size_t n) {
         JanetSelfPipeEvent *e = buf;
         pthread_mutex_lock(&c20_mu);
         if (e->cb) n_delivered++; else n_delivered_null++;
-        if (opt_events) out("E deliver %s\n", cb_kind(e->cb));
+        if (opt_events) out("E deliver %s\n", cb_kind(e));
         pthread_mutex_unlock(&c20_mu);
     }
     return r;
@@ -254,13 +273,20 @@ static ssize_t c20_write(const char *fn, int fd, const void *buf, size_t n) {
         /* completion of a threaded call started by the main VM: write + count atomically w.r.t. snapshots */
         pthread_mutex_lock(&c20_mu);
         ssize_t r = write(fd, buf, n);
-        if (r > 0) n_twritten++;
+        if (r > 0) {
+            n_twritten++;
+            JanetThreadedCallback cb = ((const JanetSelfPipeEvent *) buf)->cb;
+            int known = 0;
+            for (int i = 0; i < n_call_cbs; i++) if (call_cbs[i] == cb) known = 1;
+            if (!known && n_call_cbs < 16) call_cbs[n_call_cbs++] = cb;
+        }
         pthread_mutex_unlock(&c20_mu);
         return r;
     }
     if (c20_posting && !strcmp(fn, "janet_ev_post_event")) {
         ssize_t r = write(fd, buf, n);
         if (r > 0) {
+            if (opt_events) out("E post %s\n", ((const JanetSelfPipeEvent *) buf)->cb ? "cb" : "null");
             c20_posting = 0;
             pthread_mutex_unlock(&c20_mu);
         }
@@ -277,7 +303,6 @@ static JanetAtomicInt c20_atomic_inc(const char *fn, JanetAtomicInt volatile *p)
         c20_posting = 1;
         JanetAtomicInt r = janet_atomic_inc(p);
         n_posted++;
-        if (opt_events) out("E post\n");
         return r;
     }
     return janet_atomic_inc(p);
@@ -303,7 +328,13 @@ static int c20_gcunroot(const char *fn, Janet x) {
 static JanetSignal c20_continue(JanetFiber *f, Janet v, Janet *o, JanetSignal sig) {
     if (IS_MAIN() && opt_events) {
         observe_timers(0);
+        expect_pop = f;
         observe_queue();
+        expect_pop = NULL;
+        if (!last_pop_seen) {
+            /* the task being run was pushed (expired timer, callback) and popped between two observations */
+            out("E sched f%ld\nE pop f%ld\n", fid_of(f), fid_of(f));
+        }
         out("E run f%ld\n", fid_of(f));
     }
     JanetSignal s = janet_continue_signal(f, v, o, sig);
